@@ -892,7 +892,7 @@ func crashClass(stderr string) string {
 
 // ---- race logs ----
 
-var frameRe = regexp.MustCompile(`^\s+(github\.com/aldas/go-modbus-client[^\s(]*\.[^\s]*?)\(`)
+var frameRe = regexp.MustCompile(`^\s+(github\.com/aldas/go-modbus-client\S*?)\(\)\s*$`)
 
 // collectRaceLogs parses race detector logs written with log_path=prefix and
 // turns each report into a violation keyed by the pair of top-most library frames.
